@@ -289,6 +289,47 @@ func c13CheckItem(env *core.Env, it c13Item, target string) {
 	if !fx.Same(twice, to) {
 		env.Violatef("C13/"+cls+"/not-idempotent", "%s: to%s() = %s but applied twice = %s", desc, target, trunc(to.Short(), 100), trunc(twice.Short(), 100))
 	}
+	// (e') the result y = x.toT() is itself of type T, so the round-trip law applies to it as well: y.toString().toT() = y
+	if it.M.Kind != target && target != "String" && it.Class != "complex" {
+		env.Cover("result-roundtrip")
+		rt := c13Eval(env, "%x.to"+target+"().toString().to"+target+"() = %x.to"+target+"()", it.Val)
+		if rt.Bool3() != "true" {
+			sub := ""
+			if target == "Quantity" {
+				// (the unquoted-unit rendering of Quantity.toString() is a recorded finding; classify like (e))
+				q := to.Items[0].T
+				sub = "/empty-unit"
+				if i := strings.IndexByte(q, ' '); i >= 0 && strings.Trim(q[i+1:], "' ") != "" {
+					sub = "/alphabetic-unit"
+					for _, c := range strings.Trim(q[i+1:], "'") {
+						if !(c >= 'a' && c <= 'z' || c >= 'A' && c <= 'Z') {
+							sub = "/non-alphabetic-unit"
+						}
+					}
+				}
+			}
+			env.Violatef("C13/"+target+"/string-roundtrip"+sub, "%s: y = x.to%s() = %s, but y.toString().to%s() = y is %s", desc, target, trunc(to.Short(), 80), target, trunc(rt.Short(), 80))
+		}
+	}
+	// (g) the value of a Date <-> DateTime conversion is the same calendar text at the same precision
+	if (it.M.Kind == "DateTime" && target == "Date") || (it.M.Kind == "Date" && target == "DateTime") {
+		env.Cover("temporal-conversion-value")
+		comps := it.M.T.Comps
+		if comps > 3 {
+			comps = 3
+		}
+		want := fmt.Sprintf("%04d", it.M.T.Y)
+		if comps >= 2 {
+			want += fmt.Sprintf("-%02d", it.M.T.Mo)
+		}
+		if comps >= 3 {
+			want += fmt.Sprintf("-%02d", it.M.T.D)
+		}
+		got := strings.TrimSuffix(to.Items[0].T, "T")
+		if got != want {
+			env.Violatef("C13/"+cls+"/wrong-value", "%s.to%s() = %s, expected the calendar date %s as written", desc, target, to.Items[0], want)
+		}
+	}
 	// (e) round trip through the string form for items already of type T
 	if it.M.Kind == target && it.Class != "complex" {
 		env.Cover("roundtrip")
